@@ -8,15 +8,15 @@
 //@ include prelude/opaque.rs
 //@ include prelude/ansi_term.rs
 //@ shims merge_conflict grep tabs utils::tabs utils::path utils::process config features::hyperlinks features::line_numbers features::side_by_side draw diff_header hunk_header handlers::diff_header handlers::hunk_header handlers::merge_conflict handlers::grep cli style paint delta line_numbers side_by_side
-//@ broadcast vax::vax_group rax::rax_group r2x_group
+//@ broadcast vax::vax_group rax::rax_group r2x_group otx_group
 //@ include prelude/style.rs
 //@ type src/cli.rs Width
 //@ type src/cli.rs InspectRawLines derives=Clone,PartialEq,Eq,Structural
 //@ type src/config.rs HunkHeaderIncludeFilePath
 //@ type src/config.rs HunkHeaderIncludeLineNumber
 //@ type src/config.rs HunkHeaderIncludeCodeFragment
-//@ type src/config.rs Config keep=color_only,hyperlinks,file_style,commit_style,minus_style,zero_style,plus_style,classic_grep_header_style,hunk_header_style,tab_cfg,line_buffer_size$CONFIG_EXTRA
-//@ type src/paint.rs Painter keep=minus_lines,plus_lines,writer,output_buffer$PAINTER_EXTRA
+//@ type src/config.rs Config keep=color_only,hyperlinks,file_style,commit_style,minus_style,zero_style,plus_style,classic_grep_header_style,hunk_header_style,tab_cfg,line_buffer_size,line_numbers$CONFIG_EXTRA
+//@ type src/paint.rs Painter keep=minus_lines,plus_lines,writer,output_buffer,line_numbers_data$PAINTER_EXTRA
 //@ type src/delta.rs StateMachine
 //@ include prelude/render2.rs
 //@ include prelude/sm_inv.rs
